@@ -6,7 +6,7 @@
    primitives, the PSI helpers and the time-stamp readers are compared on ALL lists unless a hypothesis says otherwise.
    The Res-returning copies (idx = checked index) answer `Ok (total copy)`: on a 188-byte array no index can panic. *)
 From Gots Require Import Base.Prelude Base.NRange Model.Pts Model.Packet Model.AF Model.AFfn Model.Psi Model.Pat Model.Pmt Model.Pes
-  Model.Accumulator Model.Create Model.Scte Model.ScteEnc Proofs.PmtBase Proofs.PmtTotal.
+  Model.Accumulator Model.Create Model.Scte Model.ScteEnc Model.IO Proofs.PmtBase Proofs.PmtTotal.
 Local Open Scope N_scope.
 
 Lemma len188 (p : bytes) : length p = 188%nat -> len p = 188.
@@ -295,3 +295,19 @@ Lemma update_data_header st : exists rest,
                            Psi.th_sl := Scte.s_slen (snd (ScteEnc.update_data st)) |} ++ rest.
 Proof. rewrite psi_table_header_data_bytes. unfold ScteEnc.update_data. cbv zeta. cbn [fst snd Scte.s_slen].
   eexists. rewrite <- !app_assoc. cbn [app]. reflexivity. Qed.
+
+(* ================================================================== packet/io.go: IsSynced
+   IsSynced does not call packet.Pid: it masks the big-endian header word.  The PID and the adaptation_field_control
+   bits it extracts are those of the packet accessors (two Go implementations; Model/IO.v vs Model/Packet.v) *)
+Lemma issynced_fields b0 b1 b2 b3 rest : b0 < 256 -> b1 < 256 -> b2 < 256 -> b3 < 256 ->
+  let p := b0 :: b1 :: b2 :: b3 :: rest in
+  N.shiftr (N.land (be32 b0 b1 b2 b3) SyncIO.pidMask) 8 = Packet.Pid_fn p /\
+  N.land (be32 b0 b1 b2 b3) SyncIO.afcMask = N.land (Packet.get p 3) 48.
+Proof. intros H0 H1 H2 H3 p. unfold Packet.Pid_fn.
+  change (Packet.get p 1) with b1. change (Packet.get p 2) with b2. change (Packet.get p 3) with b3.
+  unfold SyncIO.pidMask, SyncIO.afcMask, be32. split.
+  - rewrite N.shiftr_land. change (N.shiftr 2096896 8) with (N.ones 13). change 31 with (N.ones 5).
+    rewrite !N.land_ones, N.shiftr_div_pow2, lor_shl8 by exact H2.
+    change (2 ^ 8) with 256. change (2 ^ 13) with 8192. change (2 ^ 5) with 32. lia.
+  - change 48 with (N.land 255 48). rewrite N.land_assoc. change 255 with (N.ones 8). rewrite N.land_ones.
+    change (2 ^ 8) with 256. f_equal. lia. Qed.
